@@ -11,6 +11,7 @@ from sa.astutil import (anorm, call_name, calls_in, dotted, norm, walk_no_nested
                         names_in, fact_texts, try_fold, enclosing_stmt, ancestors,
                         func_params, enclosing_loops)
 from sa.loader import AnalysisError
+from sa.canon import canon as canon_of
 from checks.c06 import walk_with_lambdas
 from checks import common
 
@@ -555,7 +556,7 @@ def run(ctx):
             fenced = any(p and ("type == 'hetatm'" in t) for t, p in facts) or \
                 any((not p) and ("type == 'atom'" in t) for t, p in facts)
             reachable_for_protein = (m2.name, q2) in reach
-            key = 'frame-dependent-site:%s.%s:%s' % (m2.name, q2, anorm(c, f2))
+            key = 'frame-dependent-site:%s.%s:%s' % (m2.name, q2, canon_of(f2).text(c))
             ctx.ob('C04.R3', key, fenced or not reachable_for_protein,
                    '%s.%s picks an arbitrary perpendicular with Vector.orthogonal(), whose result '
                    'depends on the orientation of the frame; the property allows that for hetero '
